@@ -4,8 +4,8 @@ from props import tokcommon as tc
 PROP = "C04"
 ENGINE = "tok+xmltok+total"
 USES_TRANSLATOR = True
-LEAN_TARGETS = ["H5V.Props.C04", "H5V.Props.C04Term", "H5V.Props.C04Xml"]
-AUDIT_IMPORTS = ["H5V.Props.C04", "H5V.Props.C04Term", "H5V.Props.C04Xml"]
+LEAN_TARGETS = ["H5V.Props.C04", "H5V.Props.C04Term", "H5V.Props.C04Xml", "H5V.Props.C04XmlTerm"]
+AUDIT_IMPORTS = ["H5V.Props.C04", "H5V.Props.C04Term", "H5V.Props.C04Xml", "H5V.Props.C04XmlTerm"]
 THEOREMS = ["H5V.Props.C04." + t for t in [
     "C04_tok_initial_safe", "C04_tok_no_panic", "C04_tok_run_no_panic", "C04_tok_feed_drains", "C04_tok_eof_is_last",
     # termination (Props/C04Term.lean)
@@ -22,7 +22,13 @@ THEOREMS = ["H5V.Props.C04." + t for t in [
     "C04_xml_initial_safe", "C04_xml_no_panic", "C04_xml_run_no_panic", "C04_xml_runsTo_safe", "C04_xml_feed_no_panic",
     "C04_xml_session_no_panic", "C04_xml_feed_drains", "C04_xml_run_drains", "C04_xml_feed_fn_drains",
     "C04_xml_initial_good", "C04_xml_eof_loop_total", "C04_xml_finish_no_panic_partial", "C04_xml_eof_is_last",
-    "C04_xml_finish_eof_is_last"]] + ["H5V.Model.XmlTok." + t for t in ["step_safe", "crStep_safe"]]
+    "C04_xml_finish_eof_is_last",
+    # termination of the XML tokenizer loop, end() total (Props/C04XmlTerm.lean)
+    "C04_xml_step_decreases", "C04_xml_step_keeps_invariant", "C04_xml_measure_below_fuel", "C04_xml_run_terminates",
+    "C04_xml_run_terminates_fuelFor", "C04_xml_fuel_irrelevant", "C04_xml_fuelFor_is_enough", "C04_xml_initial_inv",
+    "C04_xml_inv_safe", "C04_xml_feed_terminates", "C04_xml_feed_keeps_invariant", "C04_xml_feed_total",
+    "C04_xml_session_terminates", "C04_xml_fresh_session_terminates", "C04_xml_suspend_drains", "C04_xml_finish_total",
+    "C04_xml_parse_total"]] + ["H5V.Model.XmlTok." + t for t in ["step_safe", "crStep_safe", "step_dec", "step_tinv"]]
 TRUSTED = [
     "Lean 4 kernel; axioms ⊆ {propext, Classical.choice, Quot.sound} (audited per run)",
     "tokenizer model lean/H5V/Model/HtmlTok.lean: every assert!/unwrap/expect/panic!/index/from_u32 of tokenizer/mod.rs and "
@@ -35,7 +41,7 @@ TRUSTED = [
     "bisected to the single case by tools/vlib.py (ABORT/timeout); 10^5-deep nesting and 10^5..10^6-character inputs",
 ]
 ASSUMPTIONS = [
-    "C04_partial: totality of the HTML/XML tree builders and a fuel bound for the XML tokenizer's run loop are not proved; "
+    "C04_partial: totality of the HTML/XML tree builders is not proved; "
     "they are exercised: no PANIC/ABORT/HANG on any case of any engine in this run, queue drained after every feed, "
     "exactly one EOF delivered last",
     "the sink is contract-abiding (RcDom / the recording sink of the harness)",
@@ -47,7 +53,7 @@ RULE = ("(1) every case of the HTML tokenizer cover (73 start states × 41 chara
         "block, table parts, template, select, svg/math, unclosed comments, attribute floods, character-reference floods) "
         "under chunk sizes 0/1/7/4096 and option sets. non-trivial = input longer than 8 characters or started in a non-data "
         "state; distinct = distinct (case, output)")
-EXPLANATION = ("HTML tokenizer model: no panic, termination within fuelFor (strictly decreasing measure), feed drains, end() total with EOF last; XML tokenizer model: no panic, feed drains, eof loop total, EOF last; tree builders and real stack/time are exercised at runtime with a watchdog")
+EXPLANATION = ("HTML tokenizer model: no panic, termination within fuelFor (strictly decreasing measure), feed drains, end() total with EOF last; XML tokenizer model: no panic, termination within fuelFor, feed drains, end() total with EOF last; tree builders and real stack/time are exercised at runtime with a watchdog")
 
 STRESS = ["<", "&", "&a", "&#", "&#x", "<!", "<!-", "<!--", "--", "<a ", "<a b=", "<a b='", "</", "<![CDATA[", "]]", "\r", "\r\n",
           "\0", "<script>", "</script", "<!DOCTYPE", " PUBLIC", "'", "\"", "=", "/", "&amp", "&notit;", "é", "\U0001F600", "<p>", "</p>"]
@@ -117,6 +123,23 @@ def gen_cases(tier, rng):
                     continue   # quick: every context sees every end tag, a third of the rest
                 cx = "-" if c is None else tb.ctx(c[0], c[1], c[2])
                 cases.append((tb.case_txt([text], tb.opts(s=(ci % 2)), cx), "tb-total"))
+    # the tree builder's hardest stack surgery as documents / fragments: adoption agency (depth × furthest block × markers),
+    # Noah's ark, foster parenting, foreign elements with HTML-significant names above integration points, CDATA edges,
+    # random tag soup (no panic, one EOF last; model/code compared by C02/C06 on the same families)
+    from props import C02 as c02
+    quick = tier == "quick"
+    fam = tb.adoption_family(tier, rng) + tb.noahs_ark_family(tier) + tb.foster_family(tier, rng)
+    for text, c in c02.rendered_family(fam):
+        cx = "-" if c is None else tb.ctx(c[1], c[0])
+        cases.append((tb.case_txt([text], tb.opts(s=len(text) % 2), cx), "tb-surgery"))
+    fnt = tb.foreign_named_texts()
+    for text, c in fnt[::(12 if quick else 2)]:
+        cx = "-" if c is None else tb.ctx(c[1], c[0])
+        cases.append((tb.case_txt([text], tb.opts(s=len(text) % 2), cx), "tb-foreign-named"))
+    for text in tb.cdata_edge_texts()[::(3 if quick else 1)]:
+        cases.append((tb.case_txt([text], tb.opts(s=0)), "tb-cdata"))
+    for line, tag in tb.random_docs(rng, 3000 if quick else 80000):
+        cases.append((line, "tb-random"))
     for s in C14_EDGE:
         for exact in (0, 1):
             for body in ("x" + s + "y", "<a b='" + s + "' c=" + s + ">"):
